@@ -6,6 +6,7 @@ sel="$@"
 for d in seeded/S*/; do
   id=$(basename $d)
   if [ -n "$sel" ]; then ok=0; for s in $sel; do [[ $id == $s* ]] && ok=1; done; [ $ok = 1 ] || continue; fi
+  if python3 -c "import json,sys;sys.exit(0 if json.load(open('$d/meta.json')).get('neutralised_by') else 1)"; then echo "$id -> neutralised by a later fix in /repo (expected exit 0)"; continue; fi
   prop=$(python3 -c "import json;print(json.load(open('$d/meta.json'))['breaks_property'])")
   extra=$(python3 -c "import json;print(' '.join(json.load(open('$d/meta.json')).get('also_caught_by',[])))")
   res=$(./seedtest.sh $d/patch.diff quick $prop $extra 2>&1 | grep "^== " | tr '\n' ' ')
